@@ -74,7 +74,7 @@ func (c *Ctx) constInt(rel, name string) int64 {
 
 func checkC03(c *Ctx) {
 	r := c.R
-	r.Explanation = "Structural necessary conditions of 'only effective writers can add a message': (1) every call of store.Messages.Save in package server is cut off from its function's entry once the pass edges of {IsWriter() on want&given of one perUser record, Topic.cat==TopicCatSys} are removed; the record is looked up in Topic.perUser with the asUid parameter; (2) only the publish handler and the call life-cycle functions call that function; (3) the publish handler reaches it only past isInactive()==false and isReadOnly()==false, whose bodies test the paused|deleted and read-only status bits; (4) the session hands a {pub} to a topic only when attached (getSub!=nil) or to the hub only for RcptTo==\"sys\"; (5) every denial edge is effect-free up to return (reply construction, queueOut, logging only); (6) constant algebra: self/search default modes contain no W. Decides these clauses for all inputs; does not decide histories of permission changes."
+	r.Explanation = "Structural necessary conditions of 'only effective writers can add a message': (1) every call of store.Messages.Save in package server is cut off from its function's entry once the pass edges of {IsWriter() on want&given of one perUser record, Topic.cat==TopicCatSys} are removed; the record is looked up in Topic.perUser with the asUid parameter; (2) only the publish handler and the call life-cycle functions call that function; (3) the publish handler reaches it only past isInactive()==false and isReadOnly()==false, whose bodies test the paused|deleted and read-only status bits; (4) the session hands a {pub} to a topic only when attached (getSub!=nil) or to the hub only for RcptTo==\"sys\"; (5) every denial edge is effect-free up to return (reply construction, queueOut, logging only); (6) constant algebra: self/search default modes contain no W; (7) the record the write check reads follows the store (after a successful Subs.Update of ModeWant/ModeGiven every success path rewrites Topic.perUser) and a session removed from a topic is always told (delSub/detachSession). Decides these clauses for all inputs; does not decide histories of permission changes."
 	r.NotDecided = []string{"that perUser[asUid] reflects every earlier permission change (C06/C07/C08 rules)", "behaviour of the store behind the interface"}
 	r.Trusted = []string{"go/types, go/ssa construction", "VTA call graph soundness for closures and interface dispatch"}
 
@@ -182,6 +182,11 @@ func checkC03(c *Ctx) {
 
 	// (4) session side
 	c.checkC03Session()
+
+	// (7) the write check reads the cached record and trusts the session's own attachment table:
+	// both must follow the store / the topic (shared rule families of C08 and C14)
+	c.checkCacheFollowsStore(map[string]bool{"ModeWant": true, "ModeGiven": true})
+	c.checkAttachSymmetry()
 
 	// (6) constants
 	r.Floor("C03.6-const-modes", 1)
